@@ -83,3 +83,21 @@ TRUSTED = list(globals().get("TRUSTED", [])) + _sr.TRUSTED
 classify = _sr.wrap_classify(classify)
 violates = _sr.wrap_violates(violates)
 impl_violation = _sr.wrap_impl_violation(impl_violation)
+
+# ---- tree layer (coq/Core/BuildTreeBridge.v, coq/Core/BuildTree.v, Props/Properties_C05_tree.v):
+# ---- the SPECIFICATION resolver (Spec.spec_resolve, strict) on every slot of every reachable state
+COQ_TARGETS = list(COQ_TARGETS) + ["Props/Properties_C05_tree.vo"]
+PROPS_FILES = list(PROPS_FILES) + ["Props/Properties_C05_tree.v"]
+LEVEL_NOTE = LEVEL_NOTE + (
+    " TREE LAYER (Properties_C05_tree.v), single level only: C05_resolve_ptr_is_spec - for EVERY segment list, whatever the "
+    "validator's resolver (BuildValid.resolve_ptr, the one hinv speaks about) accepts at an aligned word, the resolver of the "
+    "encoding specification (Spec.spec_resolve, strict) resolves to the corresponding target (near / far+pad / double-far; "
+    "structs, all list kinds, composite tag, capability, null); C05_slot_decodes_to_table and C05_tree_slots_sublang - in every "
+    "reachable state of every sub_prog program the SPECIFICATION resolver maps every pointer slot of every table object and the "
+    "root word to null, a capability, a zero-sized target or exactly the spec target of ONE table object (pointer half of the "
+    "single-level decode); C05_spec_struct_data / C05_spec_list_elem - the spec decoder's struct data bytes / primitive list "
+    "elements are the segment content at the object's address (data half; what those bytes are after a run is C04's read-back). "
+    "STILL NOT PROVED (item (1) above stays RUNS ONLY as a tree equality): no abstract-store interpreter for op lists, no "
+    "abs_step (commutation of the abstraction with each op), no induction on fuel composing the single-level results into "
+    "spec_decode = abstract tree; bit lists and composite-list element views have no data-half lemma; the lenient mode "
+    "(strict=false) is not covered by the bridge.")
